@@ -23,6 +23,7 @@ func NewPositionFromFen(fen string) (Position, error) {
 	}
 
 	var pos Position = Position{enPassSquare: InvalidSquare}
+	whiteKings, blackKings := 0, 0
 
 	for fenRankIdx, rankStr := range rankStrings {
 		var r rank = rankFrom07Number(7 - fenRankIdx)
@@ -30,18 +31,32 @@ func NewPositionFromFen(fen string) (Position, error) {
 		for _, c := range rankStr {
 			if c >= '1' && c <= '8' {
 				f += file(c - '0')
+				if f > H+1 {
+					return Position{}, fmt.Errorf("this rank has more than 8 files: %q", rankStr)
+				}
 				continue
+			}
+			if f > H {
+				return Position{}, fmt.Errorf("this rank has more than 8 files: %q", rankStr)
 			}
 			var sq square = square(r + rank(f))
 			piece := charToPiece(c)
 			if piece == NullPiece {
 				return Position{}, fmt.Errorf("uknown piece: %q", c)
 			}
+			if piece&ColorlessPiece == Pawn && (r == Rank1 || r == Rank8) {
+				return Position{}, fmt.Errorf("pawn on the first or last rank: %q", rankStr)
+			}
+			if !pos.hasRoomFor(piece) {
+				return Position{}, fmt.Errorf("too many pieces of one colour (at most 8 pawns and 16 men): %v", boardStr)
+			}
 			pos.board[sq] = piece
 			if piece == BKing {
 				pos.blackKing = sq
+				blackKings++
 			} else if piece == WKing {
 				pos.whiteKing = sq
+				whiteKings++
 			} else if piece&WhitePieceBit == 0 {
 				if piece == BPawn {
 					pos.blackPawns.appendPawn(sq)
@@ -60,6 +75,9 @@ func NewPositionFromFen(fen string) (Position, error) {
 		if f != H+1 {
 			return Position{}, error(fmt.Errorf("this rank does not have 8 files: %q", rankStr))
 		}
+	}
+	if whiteKings != 1 || blackKings != 1 {
+		return Position{}, fmt.Errorf("each side must have exactly one king: %v", boardStr)
 	}
 
 	turnStr := fields[1]
@@ -95,6 +113,12 @@ func NewPositionFromFen(fen string) (Position, error) {
 		file := fileChar - 'a'
 		rank := (rankChar - '1') << 4
 		pos.enPassSquare = square(file) + square(rank)
+		if !pos.isEnPassantSquareConsistent() {
+			return Position{}, fmt.Errorf("en passant square does not match the position: %v", enPassantStr)
+		}
+	}
+	if !pos.areCastlingFlagsConsistent() {
+		return Position{}, fmt.Errorf("castling availability does not match the position of kings and rooks: %v", castleStr)
 	}
 
 	//TODO read rest of the fields
@@ -108,6 +132,9 @@ func NewPositionFromFen(fen string) (Position, error) {
 	if fullMoveCounter < 1 {
 		return Position{}, fmt.Errorf("full move counter is not 1-based: %d", fullMoveCounter)
 	}
+	if fullMoveCounter > maxFullMoveCounter {
+		return Position{}, fmt.Errorf("full move counter is too large: %d (max %d)", fullMoveCounter, maxFullMoveCounter)
+	}
 
 	pos.ply = int16((fullMoveCounter-1)*2)
 	if pos.flags & FlagWhiteTurn == 0 {
@@ -116,6 +143,55 @@ func NewPositionFromFen(fen string) (Position, error) {
 	
 
 	return pos, nil
+}
+
+// Largest full move counter accepted. Position.ply is an int16 and has to leave room for the rest
+// of the game and for the search.
+const maxFullMoveCounter = 9999
+
+// The piece lists are fixed-size arrays. A side has at most 8 pawns and 16 men in total, so that
+// pawns + other pieces never exceed pieceCap, also after every pawn has promoted.
+func (pos *Position) hasRoomFor(p piece) bool {
+	pieces, pawns := &pos.blackPieces, &pos.blackPawns
+	if p&WhitePieceBit != 0 {
+		pieces, pawns = &pos.whitePieces, &pos.whitePawns
+	}
+	switch p & ColorlessPiece {
+	case King:
+		return true
+	case Pawn:
+		return pawns.size < pawnCap && int(pawns.size)+int(pieces.size) < pieceCap
+	}
+	return int(pawns.size)+int(pieces.size) < pieceCap
+}
+
+// An en passant square must be the empty square a pawn of the side that just moved has skipped:
+// that pawn stands in front of it and its start square behind it is empty.
+func (pos *Position) isEnPassantSquareConsistent() bool {
+	ep := pos.enPassSquare
+	if pos.flags&FlagWhiteTurn != 0 {
+		return ep.getRank() == Rank6 && pos.board[ep] == NullPiece &&
+			pos.board[ep-square(UnitRank)] == BPawn && pos.board[ep+square(UnitRank)] == NullPiece
+	}
+	return ep.getRank() == Rank3 && pos.board[ep] == NullPiece &&
+		pos.board[ep+square(UnitRank)] == WPawn && pos.board[ep-square(UnitRank)] == NullPiece
+}
+
+// Castling is only available with the king and the rook on their start squares.
+func (pos *Position) areCastlingFlagsConsistent() bool {
+	if pos.flags&FlagWhiteCanCastleKside != 0 && (pos.board[E1] != WKing || pos.board[H1] != WRook) {
+		return false
+	}
+	if pos.flags&FlagWhiteCanCastleQside != 0 && (pos.board[E1] != WKing || pos.board[A1] != WRook) {
+		return false
+	}
+	if pos.flags&FlagBlackCanCastleKside != 0 && (pos.board[E8] != BKing || pos.board[H8] != BRook) {
+		return false
+	}
+	if pos.flags&FlagBlackCanCastleQside != 0 && (pos.board[E8] != BKing || pos.board[A8] != BRook) {
+		return false
+	}
+	return true
 }
 
 func isASCII(s string) bool {
